@@ -676,6 +676,13 @@ def prove(hyps, goal, timeout_ms=10000, rounds=5, want_model=False, fallbacks=Tr
                     return {'status': 'proved', 'backend': 'inst+z3-qf(using)', 'secs': time.time() - t0, 'n_inst': inst.n_inst, 'model': None}
             except Exception:
                 break
+        qs = z3.Solver()            # the native quantifier engine on the small named subset
+        qs.set('timeout', 3000)
+        qs.set('random_seed', 0)
+        qs.add(subf)
+        qs.add(z3.Not(goal))
+        if qs.check() == z3.unsat:
+            return {'status': 'proved', 'backend': 'z3-quant(using)', 'secs': time.time() - t0, 'n_inst': 0, 'model': None}
     first = _prove(hyps, goal, timeout_ms, 3, want_model, False)
     if TRACE:
         print('   stage first', len(hyps), first['status'], first.get('n_inst'), round(time.time() - t0, 1), flush=True)
